@@ -192,19 +192,29 @@ def model_batch(part, cases, obs, work, tag='corr'):
         return [], []
     shard = part.SHARD
     files = []
-    for k in range(0, len(cases), shard):
+    lits, errs0, bad0 = [], [], []
+    for i, (c, o) in enumerate(zip(cases, obs)):
+        try:
+            lits.append(part.coq_case(c, o))
+        except Exception as e:     # typically: the implementation crashed and the observation has no Coq rendering
+            lits.append(None)
+            bad0.append(i)
+            if len(errs0) < 3:
+                errs0.append('case %d has no Coq rendering (%s: %s); implementation observation: %s' % (i, type(e).__name__, e, json.dumps(o, default=str)[:300]))
+    keep = [i for i in range(len(cases)) if lits[i] is not None]
+    for k in range(0, len(keep), shard):
         p = os.path.join(work, '%s_%s_%d.v' % (tag, part.NAME, k // shard))
         with open(p, 'w') as f:
             f.write('From Coq Require Import List ZArith NArith QArith Bool.\nImport ListNotations.\n')
             f.write('From DV Require Import Common.Res Common.CorrBase.\n')
             f.write(part.CORR_REQUIRE + '\n')
             f.write('Definition cases : list (%s) := [\n' % part.CORR_CASE_TYPE)
-            f.write(';\n'.join(part.coq_case(c, o) for c, o in zip(cases[k:k + shard], obs[k:k + shard])))
+            f.write(';\n'.join(lits[i] for i in keep[k:k + shard]))
             f.write('\n].\nEval vm_compute in (mismatches (%s) cases).\n' % part.CORR_CHECK)
         files.append((k, p))
     with ThreadPoolExecutor(NCPU) as ex:
         outs = list(ex.map(lambda kp: coqc(kp[1], 1200), files))
-    bad, errs = [], []
+    bad, errs = list(bad0), []
     for (k, p), (rc, out) in zip(files, outs):
         m = re.search(r'=\s*\[(.*?)\]\s*:\s*list nat', out, re.S)
         if rc != 0 or not m:
@@ -212,7 +222,7 @@ def model_batch(part, cases, obs, work, tag='corr'):
             continue
         body = m.group(1).strip()
         if body:
-            bad += [k + int(x) for x in re.findall(r'\d+', body)]
+            bad += [keep[k + int(x)] for x in re.findall(r'\d+', body)]
         for ext in ('.vo', '.vok', '.vos', '.glob'):
             q = p[:-2] + ext
             if os.path.exists(q):
@@ -302,7 +312,11 @@ def run_check(pid, tier, seed, replay=None):
     rc, out = regen_tables()
     log.append(out.strip())
     if rc != 0:
-        broken.append(('translator-abort', 'tools/gen_tables.py', out.strip()[-1500:]))
+        mine = getattr(plugin, 'TABLES', None)     # e.g. ["t_filter"]; None = every table concerns this property
+        errs = re.findall(r'^TABLE-ERROR (\S+): (.*)$', out, re.M)
+        errs = [e for e in errs if mine is None or e[0] in mine or e[0][2:] in mine or ('T_' + e[0][2:]) in mine]
+        if errs or not re.search(r'^TABLE-ERROR', out, re.M):
+            broken.append(('translator-abort', 'tools/gen_tables.py', (out.strip() if not errs else '\n'.join('%s: %s' % e for e in errs))[-1500:]))
 
     # 2. proof obligations
     props_file = plugin.COQ_PROPS
